@@ -57,6 +57,8 @@ void p_child_report(int pid, int status);	/* child changes state: status as wait
 void sxm_async_deliver(void);
 extern int p_opt_deliveries;			/* also deliver (by choice) at the entry of modelled system calls */
 void p_maybe_deliver(void);
+extern int p_lock_deliveries;			/* also deliver (by choice) right after a spin lock or mutex was acquired */
+void p_maybe_deliver_locked(void);
 
 #define P_STATUS_EXITED(code)	(((code) & 0xff) << 8)
 #define P_STATUS_SIGNALED(sig)	((sig) & 0x7f)
